@@ -420,6 +420,14 @@ def _stream_cases():
             yield {"noise": noise, "login": True, "flow": "connect", "K": 32.0, "final_at": 160.0, "events": [{"do": "stream_list", "at": 64, "every": every, "n": int(100 / every)}]}
 
 
+def _big_request_cases():
+    """An awaited request with a payload around and beyond what one Noise frame can carry (64 KiB), then an ordinary one."""
+    for noise in (False, True):
+        for size in (60000, 65490, 65500, 65510, 65515, 65520, 65525, 65530, 65535, 65536, 70000, 131100, 300000):
+            yield {"noise": noise, "login": True, "flow": "full", "K": 8.0, "final_at": 200.0,
+                   "events": [{"do": "big_request", "size": size, "at": 300}, {"do": "big_request", "size": 10, "at": 1300}]}
+
+
 def _ble_cases():
     A = 0xAABBCCDDEEFF
     for kind in ("services", "read", "read_desc", "write", "pair", "unpair", "clear", "notify"):
@@ -432,6 +440,7 @@ def _ble_cases():
 def enumerated(tier):
     yield from _ble_cases()
     yield from _stream_cases()
+    yield from _big_request_cases()
     yield from _reconnect_cases()
     yield from _first_cause_cases(tier)
     yield from _fatal_with_hello_cases()
